@@ -2,6 +2,7 @@ SPECIFICATION Spec
 CONSTANTS
   Pools = {"proc", "thread", "sched"}
   Sizes = {1, 2, 3, 4}
+  Avail = {1, 2, 3, 16}
   MaxOps = 7
 INVARIANT EmitAtEnd
 CHECK_DEADLOCK FALSE
